@@ -69,6 +69,29 @@ pub fn lit(cfg: LitCfg) -> impl Strategy<Value = Lit> {
     })
 }
 
+/// Literals next to the boundaries of machine words and of the decimal buffers an implementation might
+/// use: (2^k + j) or (10^k + j), optionally with the decimal point moved and a small exponent.
+pub fn word_boundary_lit() -> impl Strategy<Value = Lit> {
+    let k2 = prop_oneof![Just(8u32), Just(15), Just(16), Just(31), Just(32), Just(53), Just(63), Just(64), Just(96), Just(127), Just(128)];
+    let k10 = prop_oneof![Just(9u32), Just(10), Just(17), Just(18), Just(19), Just(20), Just(36), Just(38), Just(39)];
+    let base = prop_oneof![
+        3 => k2.prop_map(|k| num::BigInt::from(1) << k as usize),
+        2 => k10.prop_map(|k| num::pow(num::BigInt::from(10), k as usize)),
+    ];
+    (base, -3i64..=3, 0usize..=4, prop_oneof![4 => Just(""), 2 => Just("-"), 1 => Just("+")], prop::option::weighted(0.25, -20i32..=20)).prop_map(|(b, j, p, sign, e)| {
+        let n = b + num::BigInt::from(j);
+        let mut t = n.to_string();
+        if p > 0 && t.len() > p {
+            t.insert(t.len() - p, '.');
+        }
+        let e = match e {
+            Some(e) => format!("e{}", e),
+            None => String::new(),
+        };
+        Lit::from_text(&format!("{}{}{}", sign, t, e))
+    })
+}
+
 /// Small "nice" numbers for shape-focused checks.
 pub fn small_lit() -> impl Strategy<Value = Lit> {
     prop_oneof![
